@@ -44,8 +44,7 @@ theorem daily_rule (da : DailyArgs a) (h : construct a = .ok r) :
   subst h1; subst h2; subst h3; subst h4
   have hmk : mkTime a.dtstart.hh a.dtstart.mm a.dtstart.ss = .ok (a.dtstart.hh, a.dtstart.mm, a.dtstart.ss) := by
     unfold mkTime; rw [if_pos (by omega)]
-  simp [timesetOf, da.freq, buildTimeset, List.foldlM, hmk, bind, Except.bind, pure, Except.pure,
-        sortBy, insertBy] at h5
+  simp [timesetOf, da.freq, buildTimeset, productHMS, checkTimes, hmk, sortBy, insertBy] at h5
   subst h5
   simp [da.freq, da.byweekno, da.byeaster, bymonthOf]
 
